@@ -13,6 +13,11 @@ POOLS = [
     ["x1", "X1", "x2", "y", "Y", "z"],
     ["Homo", "homo", "HOMO", "Pan", "pan", "Gorilla", "Pongo"],
     ["t1", "t2", "t3", "T1", "T2", "t10"],
+    # letters whose str.lower(), str.casefold() and str.upper() disagree (sharp s, final sigma, dotted I):
+    # case-insensitive matching must use ONE normal form on both sides
+    ["Straße", "STRASSE", "straße", "strasse", "Weg", "weg"],
+    ["ΟΔΟΣ", "οδος", "οδοσ", "Οδος", "α", "Α"],
+    ["İzmir", "izmir", "Izmir", "ızmir", "Straße", "ΟΔΟΣ", "οδος", "b"],
 ]
 
 
